@@ -140,8 +140,9 @@ def oracle_real(ck, rng):
     n = 3 if ck.tier == "quick" else 25
     for it in range(n):
         N = (44, 48, 40)
-        scale = float(rng.choice([1.0, 0.5, 2.0]))
-        pts = []
+        scale = [0.25, 1.0, 0.5, 2.0][it % 4]      # voxel sizes below and above 1 nm (depths are given in nm)
+        # one particle right next to an internal chunk border of the chunkings below (borders at 22 / 15, 30 along the first axis)
+        pts = [(int(rng.choice([21, 23, 29, 31])), int(rng.integers(8, N[1] - 8)), int(rng.integers(8, N[2] - 8)))]
         while len(pts) < 5:
             p = tuple(int(rng.integers(8, n_ - 8)) for n_ in N)
             if all(np.linalg.norm(np.subtract(p, q)) > 12 for q in pts):
@@ -204,6 +205,42 @@ def oracle_real(ck, rng):
                              oracle="template_matcher", measured=detail)
 
 
+def oracle_noncubic_matcher(ck, rng):
+    """white-noise templates of non-cubic shape (every axis has its own overlap depth), particles centred in the last voxels of a chunk:
+    the chunked result equals the single-chunk one and finds every planted particle exactly once"""
+    import dask.array as da
+    from acryo.pick import ZNCCTemplateMatcher
+    for it in range(4 if ck.tier == "quick" else 24):
+        tshape = [(7, 11, 11), (5, 7, 9), (9, 5, 7), (5, 11, 7)][it % 4]
+        scale = float(rng.choice([1.0, 0.5, 2.0]))
+        N = (24, 60, 60)
+        t = rng.normal(size=tshape).astype(np.float32)
+        img = rng.normal(scale=0.05, size=N).astype(np.float32)
+        half = (np.array(tshape) - 1) // 2
+        chunks = [(24, 30, 30), (24, 20, 30), (12, 20, 29), (24, 47, 14)][(it // 2) % 4]
+        cand = [(12, chunks[1] - 1 - (it % 2), 12), (10, 45, chunks[2] - 1 - ((it + 1) % 2)), (12, 52, 50), (12 - (it % 2), 8, 40)]
+        pts = []
+        for p_ in cand:
+            if all(h <= c < n_ - h for c, h, n_ in zip(p_, half, N)) and all(np.abs(np.subtract(p_, q)).max() > max(tshape) for q in pts):
+                pts.append(p_)
+        for p_ in pts:
+            img[tuple(slice(c - h, c + h + 1) for c, h in zip(p_, half))] += t
+        for ch in (N, chunks):
+            c = dict(picker="ZNCC", template_shape=list(tshape), chunks=list(ch), scale=scale, points=[list(p_) for p_ in pts])
+            try:
+                m = ZNCCTemplateMatcher(t).pick_molecules(da.from_array(img, chunks=ch), scale, min_distance=4.0 * scale, min_score=0.6)
+                got = sorted(tuple(int(v) for v in np.round(np.asarray(q) / scale)) for q in m.pos)
+                missing = sorted(set(pts) - set(got)); extra = sorted(set(got) - set(pts)); dup = len(got) != len(set(got))
+                detail = (f"missing {missing}" if missing else "") + (f" extra {extra}" if extra else "") + (" duplicates" if dup else "")
+            except Exception as e:  # noqa
+                missing, detail = [None], f"raised {type(e).__name__}: {str(e)[:100]}"
+            ck.oracle_count("noncubic_template_matcher", 1, 1)
+            if detail:
+                ck.violation(what=f"ZNCC matcher, template {tshape}, chunks {ch}: {detail.strip()} (planted {pts})", inp=c,
+                             key={"site": "matcher-noncubic", "chunked": tuple(ch) != tuple(N), "symptom": "missing" if missing else "extra"},
+                             oracle="noncubic_template_matcher", measured=detail)
+
+
 def run(ck: common.Check):
     ck.design_ref = "DESIGN.md §6 C20"
     ck.trusted_base = TB
@@ -217,6 +254,7 @@ def run(ck: common.Check):
     rng = np.random.default_rng(ck.seed + 2020)
     corr_scripted(ck, rng)
     oracle_real(ck, rng)
+    oracle_noncubic_matcher(ck, np.random.default_rng(ck.seed + 202020))
 
 
 def replay(data):
